@@ -44,7 +44,7 @@ Int(name) == Log([a |-> "int", name |-> name])
 SendRes == IF up /\ ~silent THEN "ok" ELSE IF up \/ run' = "sendSelect" THEN "lost" ELSE "err"
 
 IntEnabled ==
-  ENABLED ((\E i \in Ap : ApplierNext(i)) \/ Backoff \/ ResubLock \/ SenderTakeSub
+  ENABLED ((\E i \in Ap : ApplierNext(i)) \/ Backoff \/ ResubLock \/ ResubSnap \/ SenderTakeSub
            \/ SenderTakeUnsub \/ SenderStop \/ SenderDefault \/ SenderResolve \/ WaitRecv \/ RecvFail)
 EnvMay == Eager => ~IntEnabled
 
@@ -69,6 +69,8 @@ GenNext ==
      \/ EnvMay /\ NewStreamFail /\ Log([a |-> "nsFail"])
      \/ Backoff /\ Int("Backoff")
      \/ ResubLock /\ Int("ResubLock")
+     \/ ResubSnap /\ Int("ResubSnap")
+     \/ \E i \in Ap : CallLockWait(i) /\ Int("CallLockWait")
      \/ EnvMay /\ ResubSend /\ Log([a |-> "send", what |-> "resub", S |-> snap, U |-> {}, res |-> SendRes])
      \/ SenderTakeSub /\ Int("SenderTakeSub")
      \/ SenderTakeUnsub /\ Int("SenderTakeUnsub")
